@@ -235,6 +235,7 @@ type BuildOpts struct {
 	Env          []string
 	Cmd          string // "build" (default) or "test"
 	Timeout      time.Duration
+	Wrapper      []string // see grog.RunOpts.Wrapper
 }
 
 // RunBuild runs grog build and collects the observation.
@@ -251,7 +252,7 @@ func (e *Env) RunBuild(o BuildOpts) *Obs {
 	}
 	args = append(args, o.Flags...)
 	args = append(args, o.Patterns...)
-	res := e.M.Run(args, grog.RunOpts{Cwd: o.Cwd, Build: build, Env: o.Env, Timeout: o.Timeout, Pty: e.Pty})
+	res := e.M.Run(args, grog.RunOpts{Cwd: o.Cwd, Build: build, Env: o.Env, Timeout: o.Timeout, Pty: e.Pty && len(o.Wrapper) == 0, Wrapper: o.Wrapper})
 	obs := e.readTrace(build)
 	obs.Res = res
 	tty := ""
